@@ -71,6 +71,12 @@ class Plane:
             mask = np.array(mask)
 
         mask[mask != 0] = 1
+        if mask.ndim == 3:
+            # a sample belongs to one segment: the edge samples that closely
+            # packed (antialiased) segment masks share once they are made
+            # binary stay with the first segment that contains them, so that
+            # the plane transmits (and fits the tilt of) every sample once
+            mask[(np.cumsum(mask, axis=0) - mask) > 0] = 0
         self._mask = mask
 
         self._slice = _plane_slice(self._mask)
